@@ -460,15 +460,18 @@ STREAM(vz_norm) {
         }
         // long inputs, few output limbs: a carry that ripples through all the dropped limbs
         if (nn == 8 && asz == 0) {
-          for (uint64_t longsz : {(uint64_t)24, (uint64_t)70, (uint64_t)(64 / k + 6)}) {
+          for (uint64_t longsz : {(uint64_t)24, (uint64_t)70, (uint64_t)(64 / k + 6), (uint64_t)(k <= 2 ? 130 : 9), (uint64_t)(k <= 2 ? 200 : 10)}) {
             std::vector<int64_t> ll(longsz * nn);
             for (uint64_t j = 0; j < nn; j++)
               for (uint64_t i = 0; i < longsz; i++) {
                 int64_t v = (i == longsz - 1) ? ((j & 1) ? -H - 1 : H) : ((j & 1) ? -H : H - 1);  // lowest limb tips the chain over
                 if (j >= 4) v = (j == 4) ? H - 1 : ((j == 5) ? -H : rng.sbits((int)k + 1 > 62 ? 62 : (int)k + 1));
+                // extremes of the contract in every limb: the running carry keeps growing towards 2^62
+                if (j == 6) v = (int64_t)1 << 62;
+                if (j == 7) v = -((int64_t)1 << 62);
                 ll[i * nn + j] = v;
               }
-            for (uint64_t rsz : {(uint64_t)1, (uint64_t)2, longsz - 1})
+            for (uint64_t rsz : {(uint64_t)1, (uint64_t)2, longsz - 1, longsz / 2 + 1})
               norm_vec_case(out, rng, mod, nn, k, ll, longsz, rsz, rng.below(2), 0, 0, 1);
           }
         }
